@@ -6,7 +6,7 @@ import Y0.Lemmas.IdSoundC
 namespace Y0
 open IdDsl IdAux MG
 
-theorem seteq'_iff {a b : List Name} : seteq' a b = true ↔ ∀ v, v ∈ a ↔ v ∈ b := by
+theorem IdAux.seteq'_iff {a b : List Name} : seteq' a b = true ↔ ∀ v, v ∈ a ↔ v ∈ b := by
   unfold seteq'
   simp only [Bool.and_eq_true, subset'_iff]
   exact ⟨fun h v => ⟨h.1 v, h.2 v⟩, fun h => ⟨fun v => (h v).mp, fun v => (h v).mpr⟩⟩
